@@ -13,6 +13,8 @@
 use std::sync::atomic::{AtomicUsize, Ordering};
 
 pub const PAGE: usize = 4096;
+/// width of the canary zone kept next to an output slice on its unguarded side
+pub const ZONE: usize = 96;
 
 #[derive(Clone, Copy, PartialEq, Eq, Debug)]
 pub enum Place {
@@ -190,6 +192,28 @@ mod imp {
                 std::slice::from_raw_parts_mut(start, len)
             }
         }
+        /// M-canary: the mapped bytes next to a slice on the side that has no guard page
+        /// (up to ZONE of them).  Returns (pointer, length).
+        fn zone(&self, len: usize, place: Place) -> (*mut u8, usize) {
+            let n = (self.data_len - len).min(ZONE);
+            unsafe {
+                match place {
+                    Place::Head => (self.base.add(PAGE + len), n),
+                    Place::Tail => (self.base.add(PAGE + self.data_len - len - n), n),
+                }
+            }
+        }
+        pub fn arm_zone(&mut self, len: usize, place: Place, tag: u8) {
+            let (p, n) = self.zone(len, place);
+            for i in 0..n {
+                unsafe { p.add(i).write(canary(tag ^ 0x35, i)) };
+            }
+        }
+        /// true when every canary byte next to the slice is intact
+        pub fn zone_intact(&self, len: usize, place: Place, tag: u8) -> bool {
+            let (p, n) = self.zone(len, place);
+            (0..n).all(|i| unsafe { p.add(i).read() } == canary(tag ^ 0x35, i))
+        }
     }
     impl Drop for Arena {
         fn drop(&mut self) {
@@ -219,12 +243,31 @@ mod imp {
             self.buf = vec![0u8; len];
             &mut self.buf[..]
         }
+        pub fn peek(&self) -> &[u8] {
+            &self.buf[..]
+        }
+        pub fn arm_zone(&mut self, _len: usize, _place: Place, _tag: u8) {}
+        pub fn zone_intact(&self, _len: usize, _place: Place, _tag: u8) -> bool {
+            true
+        }
     }
 }
 
 pub use imp::{install, Arena};
 
 impl Arena {
+    /// the slice handed out by the last `slice`/`output` call with the same arguments (contents untouched)
+    pub fn slice_again(&mut self, len: usize, place: Place) -> &[u8] {
+        #[cfg(not(miri))]
+        {
+            &*self.slice(len, place)
+        }
+        #[cfg(miri)]
+        {
+            let _ = place;
+            &self.peek()[..len]
+        }
+    }
     /// copy `data` into a guarded slice
     pub fn input(&mut self, data: &[u8], place: Place) -> &[u8] {
         let s = self.slice(data.len(), place);
